@@ -108,6 +108,37 @@ func (c *Ctx) durableHelper(h *ssa.Function, depth int) (bool, string) {
 			}
 		}
 	}
+	// a deferred closure that assigns to a (named) result can turn a failure into success
+	for _, b := range h.Blocks {
+		for _, in := range b.Instrs {
+			d, ok := in.(*ssa.Defer)
+			if !ok {
+				continue
+			}
+			mc, ok := d.Call.Value.(*ssa.MakeClosure)
+			if !ok {
+				continue
+			}
+			cl, ok := mc.Fn.(*ssa.Function)
+			if !ok {
+				continue
+			}
+			for i, fv := range cl.FreeVars {
+				if i >= len(mc.Bindings) || fv.Referrers() == nil {
+					continue
+				}
+				al, isAl := mc.Bindings[i].(*ssa.Alloc)
+				if !isAl || !isResultCell(h, al) {
+					continue
+				}
+				for _, r := range *fv.Referrers() {
+					if st, ok := r.(*ssa.Store); ok && st.Addr == ssa.Value(fv) {
+						return false, "a deferred function in " + c.fnName(h) + " overwrites the error result (" + c.pos(st.Pos()) + "): an earlier write/sync failure can be reported as success, and the caller then renames a partial file over the good one"
+					}
+				}
+			}
+		}
+	}
 	if len(syncs) == 0 {
 		return false, "no (*os.File).Sync in " + c.fnName(h) + ": the temporary file is renamed over the live one without being made durable"
 	}
@@ -554,4 +585,23 @@ func ruleRawNames(c *Ctx, r *Rule) {
 			r.Ob(false, name+"|raw|"+what, call.Pos(), what+" is appended to the line-oriented offsets format without escaping, while the reader splits on '\\n' and rejects an empty stream: such a name makes the saved file unloadable")
 		}
 	}
+}
+
+// isResultCell: al is the local cell of a (named) result of fn, i.e. some return reloads it.
+func isResultCell(fn *ssa.Function, al *ssa.Alloc) bool {
+	for _, ret := range returnsOf(fn) {
+		for _, r := range ret.Results {
+			if u, ok := r.(*ssa.UnOp); ok && u.X == ssa.Value(al) {
+				return true
+			}
+		}
+	}
+	if fn.Recover != nil {
+		for _, in := range fn.Recover.Instrs {
+			if u, ok := in.(*ssa.UnOp); ok && u.X == ssa.Value(al) {
+				return true
+			}
+		}
+	}
+	return false
 }
